@@ -351,7 +351,9 @@ Definition step (st : fstate) (l : label) : outcome :=
       (* stream.set_reset: notify_send (+ push/recv tasks, not modelled) *)
       let outs := if s_parked s then [OWake sid] else [] in
       let st0 := put st (set_parked s false) in
-      if o_closed o && queue_empty then (match vs with [] => Ok st0 outs | _ => Stuck 29 end)
+      (* closed AND flushed: the queue is also empty while the tail of the last DATA frame is with the codec,
+         so `buffered_send_data == 0` is part of the test (fix cc4d669 of /repo) *)
+      if o_closed o && queue_empty && (s_buf s =? 0) then (match vs with [] => Ok st0 outs | _ => Stuck 29 end)
       else
       let r := if o_pending_open o then Ok st0 [] else clear_queue st0 sid in
       add_outs outs (bind r (fun st1 o1 => add_outs o1 (reclaim_all st1 sid vs)))
